@@ -143,7 +143,7 @@ impl Prop for C01 {
     }
     fn runs(&self, tier: Tier) -> u64 {
         match tier {
-            Tier::Quick => 12_000,
+            Tier::Quick => 9_000,
             Tier::Thorough => 1_000_000,
         }
     }
